@@ -606,6 +606,9 @@ func (handler *Handler) processBinaryDataRow(ctx context.Context, rowData []byte
 	var output []byte
 
 	handler.logger.Debugln("Process data rows in binary protocol")
+	if len(rowData) == 0 {
+		return nil, base_mysql.ErrMalformPacket
+	}
 	// no data in response
 	if rowData[0] == EOFPacket {
 		return rowData, nil
@@ -619,6 +622,10 @@ func (handler *Handler) processBinaryDataRow(ctx context.Context, rowData []byte
 	// 1 - packet header
 	// 7 + 2 offset from docs
 	pos = 1 + ((len(fields) + 7 + 2) >> 3)
+	if len(rowData) < pos {
+		// no room for the NULL-bitmap
+		return nil, base_mysql.ErrMalformPacket
+	}
 	nullBitmap := rowData[1:pos]
 	output = append(output, rowData[:pos]...)
 
@@ -664,6 +671,11 @@ func (handler *Handler) extractData(pos int, rowData []byte, field *ColumnDescri
 		fieldType = field.originType
 	}
 
+	// fixed-width values must lie inside the row
+	if width, ok := base_mysql.NumericTypesStorageBytes[fieldType]; ok && (pos > len(rowData) || int(width) > len(rowData)-pos) {
+		return nil, 0, base_mysql.ErrMalformPacket
+	}
+
 	switch fieldType {
 	case base_mysql.TypeNull:
 		return []byte{}, 0, nil
@@ -687,6 +699,9 @@ func (handler *Handler) extractData(pos int, rowData []byte, field *ColumnDescri
 		return rowData[pos : pos+8], 8, nil
 
 	case base_mysql.TypeDecimal, base_mysql.TypeNewDecimal, base_mysql.TypeBit, base_mysql.TypeEnum, base_mysql.TypeSet, base_mysql.TypeGeometry, base_mysql.TypeDate, base_mysql.TypeNewDate, base_mysql.TypeTimestamp, base_mysql.TypeDatetime, base_mysql.TypeTime, base_mysql.TypeVarchar, base_mysql.TypeTinyBlob, base_mysql.TypeMediumBlob, base_mysql.TypeLongBlob, base_mysql.TypeBlob, base_mysql.TypeVarString, base_mysql.TypeString:
+		if pos > len(rowData) {
+			return nil, 0, base_mysql.ErrMalformPacket
+		}
 		value, n, err := base_mysql.LengthEncodedString(rowData[pos:])
 		if err != nil {
 			handler.logger.WithError(err).WithField(logging.FieldKeyEventCode, logging.EventCodeErrorDecryptorCantDecryptBinary).
